@@ -35,10 +35,11 @@ def run(ck):
     ck.clause("C13.6", "a segment's score is exactly the sum of its members' scores (as C04.2): the builder compares its running sum with it")
     from ..report import RuleView
     from . import c04
-    c04.ownership(RuleView(ck, {"C04.2": "C13.6"}))
+    c04.ownership(RuleView(ck, {"C04.2": "C13.6"}, only_constructs=("AlignmentSegment.create", "raw-AlignmentSegment", "_AlignmentSegmentBuilder",
+                                                                    "AlignmentSegmentsFactory", "EmptyAlignmentSegment", "segment-fields")), rows=False)       # segments only: result rows are no concern of this property
     ck.clause("C13.8", "the segment builder works with the configured --minScore and --breakSegmentThreshold: the factory passes both "
                        "through unchanged and unexchanged (as C04.1)")
-    c04.wiring(RuleView(ck, {"C04.1": "C13.8"}))
+    c04.wiring(RuleView(ck, {"C04.1": "C13.8"}, only_constructs=("AlignmentSegmentsFactory",)))
     ck.clause("C13.9", "the thresholds a factory applies are its own: the segment-building classes keep no class-level or module-level "
                        "state written at run time (a second factory with other thresholds would change what the first one returns) (as C10.1)")
     from . import c10
